@@ -513,6 +513,37 @@ def _kv2_tokenizer_kwargs(fn: ast.FunctionDef) -> list[tuple[str, bool]]:
     return out
 
 
+def _kv2_keyword_roots(tree: ast.Module, fn: ast.FunctionDef) -> tuple[bool, int]:
+    """export_kv2: in the nested layout, are elements whose type is an attribute type keyword made roots?
+    Recognised form: `roots.update(elem.uuid for elem in elements if _kv2_type_is_keyword(elem.type))` in the
+    non-flat branch, with `_kv2_type_is_keyword` the recognised predicate (casefold, 'elementid', strip '_array',
+    ValueType lookup).  Absent -> False (inline elements of such types cannot be parsed back)."""
+    upd = [n for n in ast.walk(fn) if isinstance(n, ast.Call) and ast.unparse(n.func) == 'roots.update']
+    if not upd:
+        return False, fn.lineno
+    if len(upd) != 1 or ast.unparse(upd[0]) != 'roots.update((elem.uuid for elem in elements if _kv2_type_is_keyword(elem.type)))':
+        _fail(f'export_kv2: unrecognised `{ast.unparse(upd[0])}`', upd[0])
+    par = _parents(fn)
+    p_ = upd[0]
+    in_else = False
+    while p_ in par:
+        child, p_ = p_, par[p_]
+        if isinstance(p_, ast.If) and ast.unparse(p_.test) == 'flat':
+            in_else = any(child is x or child in ast.walk(x) for x in p_.orelse)
+            break
+    if not in_else:
+        _fail('export_kv2: roots.update(...) is not in the non-flat branch', upd[0])
+    pred = _top_func(tree, '_kv2_type_is_keyword')
+    body = [ast.unparse(x) for x in _body(pred)]
+    arg = pred.args.args[0].arg if len(pred.args.args) == 1 else _fail('_kv2_type_is_keyword: one parameter expected', pred)
+    want = [f'folded = {arg}.casefold()', "if folded == 'elementid':\n    return True",
+            "if folded.endswith('_array'):\n    folded = folded[:-6]",
+            'try:\n    ValueType(folded)\nexcept ValueError:\n    return False', 'return True']
+    if body != want:
+        _fail(f'_kv2_type_is_keyword: unrecognised body {body}', pred)
+    return True, upd[0].lineno
+
+
 def _kv2_stubs(cls_fns: list[ast.FunctionDef]) -> tuple[bool, int]:
     """True iff every stub created by the KV2 parser receives the UUID read from the file."""
     decl = None
@@ -668,6 +699,7 @@ def translate() -> tuple[str, dict]:
     kv2 = _export_kv2(_func(tree, 'Element', '_export_kv2'))
     kv2_refs = _kv2_ref_tables(_func(tree, 'Element', '_export_kv2'))
     kv2_tok_kw = _kv2_tokenizer_kwargs(_func(tree, 'Element', 'parse_kv2'))
+    kv2_kw_roots, kv2_kw_roots_line = _kv2_keyword_roots(tree, _func(tree, 'Element', 'export_kv2'))
     kv2_stub, kv2_stub_line = _kv2_stubs([_func(tree, 'Element', 'parse_kv2'), _func(tree, 'Element', '_parse_kv2_element')])
     kv1 = _kv1(tree)
     # scalar codecs
@@ -697,7 +729,7 @@ def translate() -> tuple[str, dict]:
                 enc_read={k: v[0] for k, v in pb['enc_read'].items()}, enc_write={k: v[0] for k, v in eb['enc_write'].items()},
                 enc_read_lines={k: v[1] for k, v in pb['enc_read'].items()},
                 formats=fmt_rows, time_codec=tcodec, matrix_codec=mcodec, ctor=ctor_rows,
-                kv2_fields=kv2, kv2_ref_tables=kv2_refs, kv2_tokenizer_kwargs=kv2_tok_kw, kv2_stub_keeps_uuid=kv2_stub, kv2_stub_line=kv2_stub_line, kv1=kv1,
+                kv2_fields=kv2, kv2_ref_tables=kv2_refs, kv2_tokenizer_kwargs=kv2_tok_kw, kv2_keyword_types_at_root=kv2_kw_roots, kv2_keyword_roots_line=kv2_kw_roots_line, kv2_stub_keeps_uuid=kv2_stub, kv2_stub_line=kv2_stub_line, kv1=kv1,
                 digests={f: ast_digest(_func(tree, 'Element', f)) for f in
                          ('parse_bin', 'export_binary', 'export_kv2', '_export_kv2', 'parse_kv2', '_parse_kv2_element')})
 
@@ -738,6 +770,8 @@ def translate() -> tuple[str, dict]:
         '(* how _export_kv2 writes an element value, per site: (condition, action) in if/elif/else order *)',
         'Definition gen_ref_scalar : rtable := [' + '; '.join(f'({c}, {a})' for c, a in kv2_refs['scalar']['table']) + '].',
         'Definition gen_ref_array : rtable := [' + '; '.join(f'({c}, {a})' for c, a in kv2_refs['array']['table']) + '].',
+        '(* export_kv2, nested layout: elements whose type name is an attribute type keyword are written at the top level *)',
+        f'Definition kv2_keyword_types_at_root : bool := {b(kv2_kw_roots)}.',
         '(* parse_kv2: keyword arguments of Tokenizer(file, ...) *)',
         'Definition gen_kv2_tok_kwargs : list (string * bool) := [' + '; '.join(f'("{k}"%string, {b(v)})' for k, v in kv2_tok_kw) + '].',
         '(* the values of the ValueType enum (attribute type keywords of KeyValues2) *)',
